@@ -165,7 +165,7 @@ func c08MutateLines(t *rapid.T, text string, isLog bool, muts *[]string) []byte 
 	// names), the others get 1-6 mutations
 	n := []int{0, 0, 0, 1, 1, 2, 3, 6}[rapid.IntRange(0, 7).Draw(t, "nmut")]
 	for i := 0; i < n; i++ {
-		kind := rapid.IntRange(0, 23).Draw(t, "mut")
+		kind := rapid.IntRange(0, 24).Draw(t, "mut")
 		pick := func() int {
 			if len(lines) == 0 {
 				lines = append(lines, "")
@@ -287,6 +287,17 @@ func c08MutateLines(t *rapid.T, text string, isLog bool, muts *[]string) []byte 
 			name = "degenerate-note"
 			k := pick()
 			lines[k] = lines[k] + []string{"  #\n", "  # \n", "\t#:\n", "  #:\n", "  # :\n", "  ##\n", "  # : :\n", "  #\t\n", "  # weight at 7: #\n", "  # 12:30 snack\n", "  # a: #\n", "  # 7:\n", "  #7:#\n", "  # :7\n", "  ## 5:5 ##\n", "  # 50%\n"}[rapid.IntRange(0, 15).Draw(t, "dn")]
+		case 24:
+			name = "many-records"
+			// more records than any read-ahead or batch size a command may use
+			nrec := []int{1030, 1500, 2100, 4200}[rapid.IntRange(0, 3).Draw(t, "nrec")]
+			for j := 0; j < nrec; j++ {
+				if isLog {
+					lines = append(lines, vFmtDay(j, "")+":\n", fmt.Sprintf("  many%d: 1\n", j%7))
+				} else {
+					lines = append(lines, fmt.Sprintf("many%d:\n", j), "  x: 1\n")
+				}
+			}
 		case 23:
 			name = "degenerate-entry"
 			k := pick()
@@ -511,6 +522,6 @@ func init() { vRegister("C08", "c08.random", checkC08) }
 
 func TestVerifC08Random(t *testing.T) {
 	vRapid(t, "C08", "c08.random",
-		"valid books/logs with 0-6 grammar-aware mutations per file (24 kinds: degenerate notes and entries, truncated line, dropped value, NaN/Inf/1e400/hex/empty numbers, stray separators, invalid UTF-8, NUL, BOM, CR-only, 70 KiB line, empty file, comments only, entries before any heading, duplicate headings, cycles of length 1/2/6, chains 12/300/2000 deep, 1e308 values, 1000x repeated lines, 500-entry recipes) x every command and sub-command with drawn flag shapes (short/long/= forms, env vs flag, global vs sub-command periods from a dictionary of dates, keywords, natural-language phrases and garbage, --maxdepth 0..1e8, odd --date-format, invalid regexps, --no-database, missing paths, directories, missing arguments, unknown flags); in process (recovered panic = failure, 60 s watchdog) and 1/15 through the real binary (no signal, no runtime trace, same verdict, message on failure); non-trivial = both files non-empty and a command given (distinct by files, arguments and environment)",
+		"valid books/logs with 0-6 grammar-aware mutations per file (25 kinds: 1030-4200 appended records, degenerate notes and entries, truncated line, dropped value, NaN/Inf/1e400/hex/empty numbers, stray separators, invalid UTF-8, NUL, BOM, CR-only, 70 KiB line, empty file, comments only, entries before any heading, duplicate headings, cycles of length 1/2/6, chains 12/300/2000 deep, 1e308 values, 1000x repeated lines, 500-entry recipes) x every command and sub-command with drawn flag shapes (short/long/= forms, env vs flag, global vs sub-command periods from a dictionary of dates, keywords, natural-language phrases and garbage, --maxdepth 0..1e8, odd --date-format, invalid regexps, --no-database, missing paths, directories, missing arguments, unknown flags); in process (recovered panic = failure, 60 s watchdog) and 1/15 through the real binary (no signal, no runtime trace, same verdict, message on failure); non-trivial = both files non-empty and a command given (distinct by files, arguments and environment)",
 		vBudget(40000, 480000), genC08, checkC08)
 }
